@@ -31,6 +31,15 @@ pub use crate::total_control_flow::ProgramControlFlow;''')
     for t in ('type Word', 'type Key', 'type Value', 'type Hash', 'struct ContentAddress', 'struct PredicateAddress'):
         ty.item(t)
     conv = u.module('convert', file='crates/types/src/convert.rs', parent=ty, uses='use crate::essential_types::*;')
+    conv.spec('''pub uninterp spec fn spec_word_4_from_u8_32(b: [u8; 32]) -> [i64; 4];
+pub uninterp spec fn spec_u8_32_from_word_4(w: [i64; 4]) -> [u8; 32];
+''')
+    conv.fn('word_4_from_u8_32', F('word_4_from_u8_32', mode='assumed', ensures='r == spec_word_4_from_u8_32(bytes)',
+            note='32-element array pattern; proved inverse of u8_32_from_word_4 (big-endian) by the complete Kani harness convert_k1', props=('C12', 'C11')))
+    conv.fn('u8_32_from_word_4', F('u8_32_from_word_4', mode='assumed', ensures='r == spec_u8_32_from_word_4(words)',
+            note='array patterns; proved inverse of word_4_from_u8_32 (big-endian) by the complete Kani harness convert_k1', props=('C12', 'C11')))
+    conv.fn('bytes_from_word', F('bytes_from_word', mode='external'))
+    conv.fn('word_from_bytes', F('word_from_bytes', mode='external'))
     conv.fn('bool_from_word', F('bool_from_word', ensures='r == crate::w2b(word)', props=('C08', 'C09')))
 
     # ------------------------------------------------------------------ essential-vm: error
@@ -445,4 +454,55 @@ pub open spec fn sp_memory(op: asm::Memory, s: Seq<i64>, m: Seq<i64>) -> Option<
         'StoreRange': marm('step_op_memory__StoreRange', 'sp_mem_store_range', mode='assumed',
                            note='closure captures `memory` mutably (Verus: unsupported); callees pop_len_words and Memory::store_range are verified; composition is Kani K2'),
     })
+
+    sy.fn('step_op_parent_memory', F('step_op_parent_memory', requires=SW, ensures=SWE + """,
+            r matches Err(e) ==> err_plain(e),
+            parent_memory@.len() == 0 ==> r is Err,
+            parent_memory@.len() > 0 ==> ({ let m = (*parent_memory@.last())@;
+                match (match op { asm::ParentMemory::Load => crate::sp_mem_load(old(stack)@, m), asm::ParentMemory::LoadRange => crate::sp_mem_load_range(old(stack)@, m) }) {
+                    Some((s, m2)) => r is Ok && final(stack)@ =~= s, None => r is Err } })""",
+        rewrites=[('R9', '|addr| {', '|addr: Word| -> (o: OpResult<Word>) ensures match memory.load_spec(addr) { Some(w) => o == Ok::<Word, OpError>(w), None => o matches Err(e) && err_plain(e) } {'),
+                  ('R2', 'let [addr, size] = stack.pop2()?;', 'let t2 = stack.pop2()?; let addr = t2[0]; let size = t2[1];')],
+        props=('C05', 'C08', 'C10')))
+
+    # ------------------------------------------------------------------ state_read
+    sr = u.module('state_read', file='crates/vm/src/state_read.rs', uses="""
+use crate::error::{MemoryError, OpError, OpResult, StackError, StateReadArgError, err_plain}; use crate::{Memory, Stack};
+use crate::essential_types::{convert::u8_32_from_word_4, ContentAddress, Key, Value, Word}; use crate::*;
+broadcast use crate::spec_from_is_from;""")
+    sr.trait('trait StateRead', [F('key_range', ensures="""match self.spec_key_range(contract_addr, key@, num_values) {
+            Ok(vs) => r is Ok && r->Ok_0.deep_view() == vs, Err(e) => r == Err::<Vec<Vec<Word>>, Self::Error>(e) }""", props=('C11',))],
+             extra='    spec fn spec_key_range(&self, contract_addr: ContentAddress, key: Seq<i64>, num_values: usize) -> Result<Seq<Seq<i64>>, Self::Error>;')
+    sr.trait('trait StateReads', [F('pre', ensures='*r == self.spec_pre()'), F('post', ensures='*r == self.spec_post()')],
+             extra='    spec fn spec_pre(&self) -> Self::Pre;\n    spec fn spec_post(&self) -> Self::Post;')
+    sr.fn('pop_memory_address', F('pop_memory_address', requires=SW, ensures=SWE + """,
+            old(stack)@.len() > 0 && old(stack)@.last() >= 0 ==> r == Ok::<usize, StateReadArgError>(old(stack)@.last() as usize) && final(stack)@ =~= old(stack)@.drop_last(),
+            !(old(stack)@.len() > 0 && old(stack)@.last() >= 0) ==> r is Err""", props=('C05', 'C11')))
+    sr.fn('pop_key_range_args', F('pop_key_range_args', requires=SW, ensures=SWE + """,
+            match crate::sp_key_args(old(stack)@) {
+                Some((key, n, rest)) => r is Ok && r->Ok_0.0@ =~= key && r->Ok_0.1 == n as usize && final(stack)@ =~= rest,
+                None => r is Err }""",
+        rewrites=[R9('words', 'Ok(words.to_vec())', 'words: &[Word]', 'Result<Vec<Word>, StackError>', 'o is Ok && o->Ok_0@ =~= words@')],
+        props=('C05', 'C11')))
+    sr.fn('write_values_to_memory', F('write_values_to_memory', requires='mem_wf(old(memory)@)', ensures="""mem_wf(final(memory)@),
+            final(memory)@.len() == old(memory)@.len(),
+            crate::layout_fits(old(memory)@, mem_addr as int, values.deep_view()) ==> r is Ok &&
+                final(memory)@ =~= crate::layout_k(old(memory)@, mem_addr as int, values.deep_view(), values@.len() as int),
+            !crate::layout_fits(old(memory)@, mem_addr as int, values.deep_view()) ==> r is Err""",
+        head_ghost='let ghost mem_addr0 = mem_addr as int;', attrs=['#[verifier::loop_isolation(false)]'],
+        head_proof='crate::lemma_fits(values.deep_view()); assert(values.deep_view().len() == values@.len());',
+        loops={0: {'iter_name': 'it', 'head_proof': """crate::lemma_fits(values.deep_view()); assert(values.deep_view().len() == values@.len());
+                assert(values.deep_view()[it.index@ as int] == value@);
+                let ghost vals = values.deep_view(); let ghost idx = it.index@ as int; let ghost n = vals.len() as int;
+                assert(crate::sum_lens(vals, idx + 1) == crate::sum_lens(vals, idx) + vals[idx].len());
+                assert(0 <= crate::sum_lens(vals, idx));
+                assert(crate::sum_lens(vals, idx + 1) <= crate::sum_lens(vals, n));
+                assert(0 <= crate::sum_lens(vals, n));""", 'invariant': """
+            mem_wf(memory@), memory@.len() == old(memory)@.len(), values_len == values@.len(), index_len_pairs_len == 2 * values_len,
+            it.seq() == values@,
+            mem_addr0 == mem_addr - 2 * it.index@, value_addr == crate::val_addr(mem_addr0 as int, values.deep_view(), it.index@ as int),
+            0 <= mem_addr0, mem_addr0 + 2 * values_len <= i64::MAX,
+            crate::val_addr(mem_addr0 as int, values.deep_view(), it.index@ as int) <= memory@.len() || it.index@ == 0,
+            memory@ =~= crate::layout_k(old(memory)@, mem_addr0 as int, values.deep_view(), it.index@ as int)"""}},
+        props=('C05', 'C11')))
     return u
